@@ -1,5 +1,93 @@
-(* C09 — property theorems (statements only; proofs live in Proofs*.v). *)
+(* C09 — property theorems (statements only; proofs live in Proofs.v).
+   Inv h r  =  (I1) every cached body duration of a node reachable from r equals the duration recomputed from leaves
+               and repetition counts, (I2) every child listed at position i records parent_index i, (I3) and records
+               the listing node as parent; the reachable part is a well-founded tree; the root has no parent. *)
 From Coq Require Import List ZArith QArith Bool.
 Import ListNotations.
-Require Import QV.C09.Model QV.C09.Proofs.
+Require Import QV.C09.Model QV.C09.Corr QV.C09.Proofs.
 
+(* Loop.waveform setter, any node of the tree, any waveform / None *)
+Theorem C09_set_waveform_preserves : forall h r x w h' res,
+  Inv h r -> reach h r x -> set_waveform x w h = (h', res) -> ok_result res -> Inv h' r.
+Proof. exact set_waveform_inv. Qed.
+Print Assumptions C09_set_waveform_preserves.
+
+(* Loop.repetition_count / repetition_definition setters (after repair fabbb68), any node, any count incl. volatile *)
+Theorem C09_set_repetition_preserves : forall h r x rd h' res,
+  Inv h r -> reach h r x -> set_repetition_definition x rd h = (h', res) -> ok_result res -> Inv h' r.
+Proof. exact set_repetition_definition_inv. Qed.
+Print Assumptions C09_set_repetition_preserves.
+
+(* the memoising queries: whatever they write into caches is the recomputed duration; the answer is the recomputed one *)
+Theorem C09_body_duration_correct : forall fuel x h h' res,
+  body_duration fuel x h = (h', res) -> (forall y, reach h x y -> cvalid h y) ->
+  memo_post h h' /\ match res with R q => exists b, tbody h x b /\ (q == b)%Q | E e => model_err e end.
+Proof. exact body_duration_spec. Qed.
+Print Assumptions C09_body_duration_correct.
+
+Theorem C09_queries_preserve : forall fuel h r x h' res,
+  Inv h r -> reach h r x -> duration fuel x h = (h', res) -> Inv h' r.
+Proof. exact duration_inv. Qed.
+Print Assumptions C09_queries_preserve.
+
+(* the reset walk Loop._invalidate_duration() repairs I1 after any change confined to the subtree of x *)
+Theorem C09_reset_walk_restores : forall fuel x h h' r,
+  invalidate fuel x None h = (h', R tt) -> reach h r x -> InvExc h r (fun y => reach h y x) -> Inv h' r.
+Proof. exact invalidate_none_spec. Qed.
+Print Assumptions C09_reset_walk_restores.
+
+(* one step / any finite history over the operations proved so far (waveform setter, both repetition setters,
+   duration / body_duration queries, ==, no-op), arbitrary target paths and arguments *)
+Theorem C09_step_partial : forall s o s' out,
+  sInv s -> proved_op o = true -> step s o = (s', out) -> out_ok out -> sInv s'.
+Proof. exact step_partial. Qed.
+Print Assumptions C09_step_partial.
+
+Theorem C09_history_partial : forall ops s,
+  sInv s -> forallb proved_op ops = true -> run_ok s ops -> sInv (run s ops).
+Proof. exact history_partial. Qed.
+Print Assumptions C09_history_partial.
+
+(* the hypotheses are satisfiable: a one-leaf program satisfies the invariant, and a proved operation runs on it *)
+Theorem C09_nonvacuous : forall w, sInv (leaf_state w) /\
+  out_ok (snd (step (leaf_state w) (OSetRepCount [] 5))) /\ proved_op (OSetRepCount [] 5) = true.
+Proof. intros w; split; [apply leaf_state_inv|split; [exact I|reflexivity]]. Qed.
+Print Assumptions C09_nonvacuous.
+
+(* ---- the full statement (open for the structural operations: tested by the correspondence check only) ------------------ *)
+(* guard of the known finding roll-inner-waveform: roll_constant_waveforms is not applied while some node below the
+   target has both children and a waveform *)
+Fixpoint no_inner_wf (fuel : nat) (h : heap) (x : id) : bool :=
+  match fuel with
+  | O => false
+  | S f => match get h x with
+           | None => false
+           | Some n => (match children n, wform n with _ :: _, Some _ => false | _, _ => true end)
+                       && forallb (no_inner_wf f h) (children n)
+           end
+  end.
+Definition guard_C09_roll_inner_waveform (s : state) (o : op) : bool :=
+  match o with
+  | ORoll p _ _ _ => match resolve (st_heap s) (st_root s) p with
+                     | Some x => no_inner_wf (S (length (st_heap s))) (st_heap s) x
+                     | None => true
+                     end
+  | _ => true
+  end.
+Definition C09_step_statement : Prop := forall s o s' out,
+  sInv s -> guard_C09_roll_inner_waveform s o = true -> step s o = (s', out) -> out_ok out -> sInv s'.
+
+(* the model's own observation passes the check that is applied to the implementation's observation *)
+Definition obs_ok (s : state) : bool :=
+  match observe s with Some t => spec_tree t [] true 0 [] | None => false end.
+
+(* known finding roll-inner-waveform: a 3-operation history after which the faithful model reports a stale duration *)
+Definition roll_witness_init : tspec := TS (RInt 3) None None [TS (RInt 2) (Some (WConst 16 2)) None []].
+Definition roll_witness_ops : list op :=
+  [OAppend [0%nat] (TS (RInt 2) (Some (WConst 1 2)) None []); OQueryDur []; ORoll [] 2 2 1].
+Theorem C09_roll_inner_waveform_refuted :
+  obs_ok (run (init_state roll_witness_init) (firstn 2 roll_witness_ops)) = true /\
+  obs_ok (run (init_state roll_witness_init) roll_witness_ops) = false /\
+  guard_C09_roll_inner_waveform (run (init_state roll_witness_init) (firstn 2 roll_witness_ops)) (ORoll [] 2 2 1) = false.
+Proof. vm_compute. repeat split. Qed.
+Print Assumptions C09_roll_inner_waveform_refuted.
